@@ -9,6 +9,7 @@ import (
 	"context"
 	"errors"
 	"fmt"
+	"os"
 	"runtime"
 	"sort"
 	"strconv"
@@ -78,6 +79,7 @@ const (
 	stRunning = iota
 	stYield
 	stDone
+	stBlocked // blocked for real on the pool mutex, which a goroutine parked at "mu.held" holds
 )
 
 // G is a managed goroutine.
@@ -85,6 +87,7 @@ type G struct {
 	kind  int
 	idx   int // caller index, or connection id (Go id, 1-based) for conn / bg goroutines
 	state int
+	goid  int64
 	point string
 	args  []any
 	wake  chan string
@@ -107,6 +110,7 @@ type fakeConn struct {
 	ready    chan struct{}
 	isReady  bool
 	exited   bool
+	failedInvoke bool // an Invoke on this connection has returned ErrConnDead to the pool
 	pc       any // *poolConn once seen at a scheduling point
 	invoking int
 }
@@ -129,6 +133,17 @@ type Run struct {
 	inbox map[int64]int64 // waiter key -> connection id sitting in its channel
 	chans map[int64]any   // every waiter channel ever seen, by key (stays after the waiter left)
 	poolID map[int64]int64 // pool connection id -> fake connection id (creation order, 1-based)
+
+	// lock-held pauses (Config.LockYield > 0): the debug lines that the pool writes INSIDE a critical section
+	// of its mutex ("Connection released", "Transfer connection to requester", "Connection died") park the
+	// goroutine while it holds the mutex; goroutines granted meanwhile may block on the mutex for real
+	// (detected from their stacks) and continue when the holder is released ("ul").  Such runs exhibit
+	// check-then-lock windows; they have no model trace and only the monitors that do not depend on the
+	// harness's step bookkeeping are evaluated.
+	lockYield  int // remaining pauses
+	noModel    bool
+	holder     *G
+	deadPending map[int64]bool // connections whose dead() was started (conn goroutine or a retrying caller) during the current pause
 
 	expectBg bool // the source releases a connection in the background when its creator gives up
 	dcClosed bool // DC.Close was called by the scheduler
@@ -153,6 +168,11 @@ type yieldLogger struct{ r *Run }
 func (yieldLogger) Enabled(context.Context, log.Level) bool { return true }
 
 func (l yieldLogger) Log(ctx context.Context, _ log.Level, msg string, attrs ...log.Attr) {
+	switch msg {
+	case "Connection released", "Transfer connection to requester", "Connection died":
+		l.r.lockPoint()
+		return
+	}
 	if msg != "Waiting for free connect" {
 		return
 	}
@@ -188,6 +208,49 @@ func (r *Run) logPoint(key int64) {
 	}
 	r.mu.Unlock()
 	r.yield(g, "acq.registered", nil)
+}
+
+// lockPoint parks the calling managed goroutine while it holds the pool mutex (only in lock-yield runs).
+func (r *Run) lockPoint() {
+	id := goid()
+	r.mu.Lock()
+	g := r.byGoid[id]
+	if r.aborted || g == nil || g.state != stRunning || r.lockYield <= 0 || r.holder != nil {
+		r.mu.Unlock()
+		return
+	}
+	r.lockYield--
+	r.holder = g
+	r.mu.Unlock()
+	r.yield(g, "mu.held", nil)
+}
+
+// blockedOnPoolMutex: which of the goroutines `ids` are blocked in sync.Mutex.Lock called directly from a
+// method of pool.DC (taken from the runtime's stack dump: a deterministic test, no timing involved).
+func blockedOnPoolMutex(ids map[int64]bool) map[int64]bool {
+	buf := make([]byte, 1<<20)
+	n := runtime.Stack(buf, true)
+	res := map[int64]bool{}
+	for _, blk := range strings.Split(string(buf[:n]), "\n\n") {
+		if !strings.HasPrefix(blk, "goroutine ") {
+			continue
+		}
+		lines := strings.Split(blk, "\n")
+		f := strings.Fields(lines[0])
+		if len(f) < 3 {
+			continue
+		}
+		id, _ := strconv.ParseInt(f[1], 10, 64)
+		if !ids[id] || !(strings.Contains(lines[0], "[sync.Mutex.Lock") || strings.Contains(lines[0], "[semacquire")) {
+			continue
+		}
+		for i, ln := range lines {
+			if strings.HasPrefix(ln, "sync.(*Mutex).Lock(") && i+2 < len(lines) && strings.HasPrefix(lines[i+2], "github.com/gotd/td/pool.(*DC).") {
+				res[id] = true
+			}
+		}
+	}
+	return res
 }
 
 var errRetryable = fmt.Errorf("fake: %w", pool.ErrConnDead)
@@ -227,6 +290,9 @@ func (c *fakeConn) Invoke(ctx context.Context, input bin.Encoder, output bin.Dec
 	if c.invoking > 1 {
 		r.failLocked("shared-conn", fmt.Sprintf("connection %d is inside Invoke for %d callers at once", c.id-1, c.invoking))
 	}
+	if c.failedInvoke {
+		r.failLocked("handout-dead", fmt.Sprintf("connection %d is invoked by caller %d although an earlier Invoke on it had returned ErrConnDead to the pool (it was handed out again instead of being dropped)", c.id-1, g.idx))
+	}
 	g.conn = c.id
 	r.mu.Unlock()
 	what := r.yield(g, "inv", nil)
@@ -237,6 +303,13 @@ func (c *fakeConn) Invoke(ctx context.Context, input bin.Encoder, output bin.Dec
 	case "ok":
 		return nil
 	case "retry":
+		if g.ctx.Err() == nil {
+			// (a cancelled caller does not retry: DC.Invoke releases the connection like after any error and
+			// leaves the bookkeeping of its death to the connection's own goroutine)
+			r.mu.Lock()
+			c.failedInvoke = true
+			r.mu.Unlock()
+		}
 		return errRetryable
 	case "abort":
 		return context.Canceled
@@ -333,7 +406,8 @@ func (r *Run) newConn() pool.Conn {
 
 func (r *Run) register(g *G) {
 	r.mu.Lock()
-	r.byGoid[goid()] = g
+	g.goid = goid()
+	r.byGoid[g.goid] = g
 	r.gs = append(r.gs, g)
 	r.mu.Unlock()
 }
@@ -375,6 +449,33 @@ func (r *Run) finish(g *G) {
 // goroutine right after Run returns; the goroutine counts as finished once the pool's dead flag is
 // set and the pool mutex has been released again.
 func (r *Run) finishWhenDead(g *G, c *fakeConn) {
+	if r.noModel {
+		// lock-yield run: dead() may block on the pool mutex (the scheduler notices: stBlocked), be parked
+		// inside its critical section (stYield at "mu.held"), or return at once because another goroutine
+		// is already marking the connection (then the goroutine simply ends)
+		go func() {
+			for n := 0; ; n++ {
+				r.mu.Lock()
+				st, ab := g.state, r.aborted
+				r.mu.Unlock()
+				if ab {
+					break
+				}
+				// (the pool's dead flag is no criterion here: dead() sets it before its debug line, where the
+				// goroutine may still be parked inside the critical section)
+				if st == stRunning && n%4 == 3 && !goroutineExists(g.goid) {
+					break
+				}
+				if n < 20 {
+					runtime.Gosched()
+				} else {
+					time.Sleep(20 * time.Microsecond)
+				}
+			}
+			r.finish(g)
+		}()
+		return
+	}
 	go func() {
 		deadline := time.Now().Add(Patience())
 		for time.Now().Before(deadline) {
@@ -386,6 +487,12 @@ func (r *Run) finishWhenDead(g *G, c *fakeConn) {
 		pool.VerifC27Sync(r.dc)
 		r.finish(g)
 	}()
+}
+
+func goroutineExists(id int64) bool {
+	buf := make([]byte, 1<<20)
+	n := runtime.Stack(buf, true)
+	return strings.Contains(string(buf[:n]), fmt.Sprintf("goroutine %d [", id))
 }
 
 // hook is called by pool code at a scheduling point, on the goroutine that reached it.
@@ -400,7 +507,7 @@ func (r *Run) hook(point string, args []any) {
 	if g == nil && point == "bg.wait" {
 		cid, _, _ := pool.VerifC27Conn(args[0])
 		cid = r.fakeOf(cid)
-		g = &G{kind: gBg, idx: int(cid), wake: make(chan string, 1), state: stRunning}
+		g = &G{kind: gBg, idx: int(cid), wake: make(chan string, 1), state: stRunning, goid: id}
 		r.byGoid[id] = g
 		r.gs = append(r.gs, g)
 		r.bgs[cid] = g
@@ -458,9 +565,36 @@ func (r *Run) waitQuiet(d time.Duration) bool {
 	for spins := 0; ; spins++ {
 		r.mu.Lock()
 		n := r.running
+		held := r.holder != nil
 		r.mu.Unlock()
 		if n <= 0 {
 			return true
+		}
+		if held && spins >= 40 && spins%10 == 0 {
+			// a parked goroutine holds the pool mutex: the running ones may be blocked on it for real
+			r.mu.Lock()
+			ids := map[int64]bool{}
+			for _, g := range r.gs {
+				if g.state == stRunning && g.goid != 0 {
+					ids[g.goid] = true
+				}
+			}
+			r.mu.Unlock()
+			bl := blockedOnPoolMutex(ids)
+			r.mu.Lock()
+			if len(bl) > 0 && len(bl) == r.running {
+				for _, g := range r.gs {
+					if g.state == stRunning && bl[g.goid] {
+						g.state = stBlocked
+						r.running--
+					}
+				}
+			}
+			quiet := r.running <= 0
+			r.mu.Unlock()
+			if quiet {
+				return true
+			}
 		}
 		if spins < 200 {
 			runtime.Gosched()
@@ -469,6 +603,17 @@ func (r *Run) waitQuiet(d time.Duration) bool {
 		if deadline.IsZero() {
 			deadline = time.Now().Add(d)
 		} else if time.Now().After(deadline) {
+			if os.Getenv("VERIF_DEBUG") != "" {
+				buf := make([]byte, 1<<20)
+				nb := runtime.Stack(buf, true)
+				r.mu.Lock()
+				fmt.Fprintf(os.Stderr, "c27 debug: waitQuiet timed out: running=%d holder=%v\n", r.running, r.holder != nil)
+				for _, g := range r.gs {
+					fmt.Fprintf(os.Stderr, "  g kind=%d idx=%d state=%d point=%s goid=%d\n", g.kind, g.idx, g.state, g.point, g.goid)
+				}
+				r.mu.Unlock()
+				fmt.Fprintf(os.Stderr, "%s\n", buf[:nb])
+			}
 			return false
 		}
 		time.Sleep(20 * time.Microsecond)
@@ -543,7 +688,13 @@ func (r *Run) observeC(check bool) obs {
 	}
 	o.reqs = append([]int64(nil), sn.Reqs...)
 	sort.Slice(o.reqs, func(i, j int) bool { return o.reqs[i] < o.reqs[j] })
+	r.mu.Lock()
+	chans := make(map[int64]any, len(r.chans))
 	for k, ch := range r.chans {
+		chans[k] = ch
+	}
+	r.mu.Unlock()
+	for k, ch := range chans {
 		n := pool.VerifC27ChanLen(ch)
 		_, have := r.inbox[k]
 		if n == 0 && have {
@@ -574,7 +725,11 @@ func (r *Run) observeC(check bool) obs {
 		} else {
 			s += "n"
 		}
-		if bg := r.bgs[c.id]; bg != nil && bg.state == stYield {
+		r.mu.Lock()
+		bg := r.bgs[c.id]
+		bgParked := bg != nil && bg.state == stYield
+		r.mu.Unlock()
+		if bgParked {
 			s += "o"
 		} else {
 			s += "-"
@@ -679,6 +834,9 @@ func (r *Run) enabled(w Weights, b *Budget) []choice {
 			muHeld = true
 		}
 	}
+	if h := r.holder; h != nil && h.state == stYield && h.point == "mu.held" {
+		out = append(out, choice{h, "go", "ul", h.idx, 2 * w.Step})
+	}
 	for _, g := range r.callers {
 		if g.state != stYield {
 			continue
@@ -716,22 +874,22 @@ func (r *Run) enabled(w Weights, b *Budget) []choice {
 			if !muHeld {
 				out = append(out, choice{g, "ok", "fi", i, w.FinOK})
 				out = append(out, choice{g, "err", "fi", i, w.FinErr})
-				if b.Retry > 0 {
+				if b.Retry > 0 && r.secondDeadAllowed(g.conn) {
 					out = append(out, choice{g, "retry", "fi", i, w.FinRetry})
 				}
 			}
 		case "xfer.send":
 			out = append(out, choice{g, "go", "xs", i, w.Step})
 		}
-		if !g.cancelled && g.point != "caller.idle" && b.Cancel > 0 {
+		if !g.cancelled && g.point != "caller.idle" && g.point != "mu.held" && b.Cancel > 0 {
 			out = append(out, choice{nil, "", "ca", i, w.Cancel})
 		}
 	}
-	if !r.dcClosed && b.Close > 0 && !muHeld {
+	if !r.dcClosed && b.Close > 0 && !muHeld && r.holder == nil {
 		out = append(out, choice{nil, "", "cl", 0, w.Cancel})
 	}
 	for _, g := range r.gs {
-		if g.state != stYield {
+		if g.state != stYield || g.point == "mu.held" {
 			continue
 		}
 		switch g.kind {
@@ -740,7 +898,7 @@ func (r *Run) enabled(w Weights, b *Budget) []choice {
 			if !c.isReady {
 				out = append(out, choice{g, "ready", "rd", g.idx - 1, w.Ready})
 			}
-			if !muHeld && (b.Die > 0 || r.dcClosed) {
+			if !muHeld && (b.Die > 0 || r.dcClosed) && r.secondDeadAllowed(int64(g.idx)) {
 				out = append(out, choice{g, "die", "di", g.idx - 1, max(w.Die, 1)})
 			}
 		case gBg:
@@ -751,6 +909,18 @@ func (r *Run) enabled(w Weights, b *Budget) []choice {
 		}
 	}
 	return out
+}
+
+// secondDeadAllowed: during a pause inside the pool mutex, a second dead() for the same connection (its own
+// goroutine and a retrying caller both past the once-guard, both about to take the mutex) is scheduled
+// only while the pool counts at least two connections: if the guard were broken, the counter would then
+// become wrong (which the monitor reports) instead of negative (where dead() panics on a pool goroutine
+// and takes the harness process down).
+func (r *Run) secondDeadAllowed(conn int64) bool {
+	if r.holder == nil || !r.deadPending[conn] {
+		return true
+	}
+	return pool.VerifC27Snapshot(r.dc).Total >= 2
 }
 
 // ---------------------------------------------------------------------------------------------
@@ -814,6 +984,9 @@ func (r *Run) monitor(o obs, last string) {
 	if r.max >= 1 && o.total > r.max {
 		r.fail("over-limit", fmt.Sprintf("after %s: total=%d exceeds max %d | %s", last, o.total, r.max, o.summary))
 	}
+	if r.noModel {
+		return // the holder-based checks rest on the harness's per-step bookkeeping, which lock-yield runs skip
+	}
 	h := r.holders(o)
 	kind := last
 	if i := strings.IndexByte(kind, ':'); i > 0 {
@@ -834,7 +1007,7 @@ func (r *Run) monitor(o obs, last string) {
 // served: a caller parked in the third acquire case whose select is not ready although an idle live
 // connection exists or a slot is free (the consequence clause of C28).
 func (r *Run) monitorServed(o obs, last string) {
-	if r.hasLeak() || r.dcClosed {
+	if r.hasLeak() || r.dcClosed || r.noModel {
 		return // already reported; a leaked slot trivially starves waiters
 	}
 	idle := false
